@@ -4700,6 +4700,21 @@ impl PeerConnectionInner {
             // For Offer, we must ensure MIDs and sort by them to maintain m-line stability
             // This handles cases where transceivers were added out-of-order relative to their
             // assigned MIDs (e.g. reused from previous negotiations)
+            //
+            // Direct RTP binds its primary socket while the offer is built. Do it before
+            // any MID is assigned so that a bind failure leaves the transceivers untouched.
+            if self.config.transport_mode == TransportMode::Rtp
+                && self.ice_transport.local_candidates().is_empty()
+            {
+                let needs_rtcp = !(self.config.rtcp_mux_policy
+                    == crate::config::RtcpMuxPolicy::Require
+                    && self.config.sdp_compatibility
+                        != crate::config::SdpCompatibilityMode::LegacySip);
+                self.ice_transport
+                    .setup_direct_rtp_offer_with_rtcp(needs_rtcp)
+                    .await
+                    .map_err(|err| RtcError::Internal(format!("RTP socket bind failed: {err}")))?;
+            }
             for t in &transceivers {
                 self.ensure_mid(t);
             }
